@@ -273,3 +273,68 @@ def check_converters(chk, rule, repo, mod, qual, fields, annots, inline=None):
                         f'field {fld}: {leaf} values are rebuilt by {sorted(TYPE_CONVERTER[leaf])}',
                         f'field `{fld}` ({leaf}) is rebuilt by {sorted(used) or "no converter"}; the writer\'s notation is inverted by '
                         f'{sorted(TYPE_CONVERTER[leaf])} (e.g. Vul["None"] / Vul["All"] do not exist)')
+
+
+def check_truthiness(chk, rule, repo, module=f'{JH}.parser'):
+    """Presence of a JSON value is tested with `in` / `is None`, never by its truth value: [] / 0 / "" / {} are legal values
+    that were written (a board with no completed trick, a result of 0 tricks, an empty settings list) and must be read back."""
+    m = repo.module(module, rule)
+    n_ctx = 0
+    for mod, c, fn in repo.all_functions():
+        if mod is not m:
+            continue
+        qual = f'{c.name}.{fn.name}' if c is not None else f'{module.split(".")[-1]}:{fn.name}'
+        raw = set()
+        params = [a.arg for a in fn.args.args if a.arg not in ('self', 'cls', 'fp')]
+        ann = {a.arg: (ast.unparse(a.annotation) if a.annotation is not None else '') for a in fn.args.args}
+        for pn in params:
+            if ann.get(pn, '') in ('dict', 'Dict', 'list', 'List') or ann.get(pn, '').startswith(('Dict[', 'List[', 'dict[', 'list[')) or pn in ('data', 'd'):
+                raw.add(pn)
+
+        def is_raw(e):
+            if isinstance(e, ast.Name):
+                return e.id in raw
+            if isinstance(e, ast.Subscript):
+                return is_raw(e.value)
+            if isinstance(e, ast.Call) and isinstance(e.func, ast.Attribute) and e.func.attr == 'get':
+                return is_raw(e.func.value)
+            if isinstance(e, ast.Call) and ast.unparse(e.func) in ('json.load', 'json.loads'):
+                return True
+            return False
+        changed = True
+        while changed:
+            changed = False
+            for n in ast.walk(fn):
+                if isinstance(n, (ast.Assign, ast.AnnAssign)) and n.value is not None:
+                    t = n.targets[0] if isinstance(n, ast.Assign) else n.target
+                    if isinstance(t, ast.Name) and t.id not in raw and is_raw(n.value):
+                        raw.add(t.id)
+                        changed = True
+                if isinstance(n, (ast.For, ast.comprehension)) and is_raw(n.iter):
+                    for x in ast.walk(n.target):
+                        if isinstance(x, ast.Name) and x.id not in raw:
+                            raw.add(x.id)
+                            changed = True
+        ctxs = []
+        for n in ast.walk(fn):
+            if isinstance(n, (ast.If, ast.IfExp, ast.While)):
+                ctxs.append(n.test)
+            elif isinstance(n, ast.BoolOp):
+                ctxs += n.values[:-1] if not isinstance(parent(n), (ast.If, ast.IfExp, ast.While, ast.UnaryOp)) else n.values
+            elif isinstance(n, ast.UnaryOp) and isinstance(n.op, ast.Not):
+                ctxs.append(n.operand)
+            elif isinstance(n, ast.comprehension):
+                ctxs += n.ifs
+            elif isinstance(n, ast.Assert):
+                ctxs.append(n.test)
+            elif isinstance(n, ast.Call) and isinstance(n.func, ast.Name) and n.func.id == 'bool' and n.args:
+                ctxs.append(n.args[0])
+        for t in ctxs:
+            n_ctx += 1
+            if isinstance(t, ast.BoolOp):
+                continue      # its operands are visited on their own
+            if is_raw(t):
+                chk.fail(rule, repo.where(m, t), qual, f'truth value of JSON value `{ast.unparse(t)[:60]}`',
+                         f'`{ast.unparse(t)[:80]}` is used as a truth value: an empty list / 0 / "" that was written (no completed trick, 0 tricks, an empty list of '
+                         f'boards) is treated as absent and read back as something else - test presence with `in` and `is None`')
+    chk.ok(rule, repo.where(m, m.tree), f'{n_ctx} boolean contexts in the JSON reader: no JSON value is used as a truth value')
